@@ -96,6 +96,15 @@ impl DhcpMsg {
 /// Strict decode of a BOOTP/DHCP payload: the options area must be a clean
 /// TLV sequence ending in an End option (pads allowed, nothing but pads after End).
 pub fn decode(b: &[u8]) -> Result<DhcpMsg, String> {
+    match decode_lenient(b)? {
+        (m, None) => Ok(m),
+        (_, Some(e)) => Err(e),
+    }
+}
+
+/// Like `decode`, but a broken options area still yields the fixed header
+/// (and the options read so far) together with the error.
+pub fn decode_lenient(b: &[u8]) -> Result<(DhcpMsg, Option<String>), String> {
     if b.len() < 240 {
         return Err(format!("payload too short ({})", b.len()));
     }
@@ -108,12 +117,14 @@ pub fn decode(b: &[u8]) -> Result<DhcpMsg, String> {
     let mut options = vec![];
     let mut i = 240;
     let mut ended = false;
+    let mut err = None;
     while i < b.len() {
         let c = b[i];
         i += 1;
         if ended {
             if c != 0 {
-                return Err(format!("non-pad octet {:#x} after End option", c));
+                err = Some(format!("non-pad octet {:#x} after End option", c));
+                break;
             }
             continue;
         }
@@ -122,22 +133,24 @@ pub fn decode(b: &[u8]) -> Result<DhcpMsg, String> {
             255 => ended = true,
             _ => {
                 if i >= b.len() {
-                    return Err(format!("option {} has no length octet", c));
+                    err = Some(format!("option {} has no length octet", c));
+                    break;
                 }
                 let l = b[i] as usize;
                 i += 1;
                 if i + l > b.len() {
-                    return Err(format!("option {} (len {}) runs past the end", c, l));
+                    err = Some(format!("option {} (len {}) runs past the end", c, l));
+                    break;
                 }
                 options.push((c, b[i..i + l].to_vec()));
                 i += l;
             }
         }
     }
-    if !ended {
-        return Err("options area has no End option".into());
+    if !ended && err.is_none() {
+        err = Some("options area has no End option".into());
     }
-    Ok(DhcpMsg {
+    Ok((DhcpMsg {
         op: b[0],
         htype: b[1],
         hlen: b[2],
@@ -151,7 +164,7 @@ pub fn decode(b: &[u8]) -> Result<DhcpMsg, String> {
         giaddr: ip(24),
         chaddr,
         options,
-    })
+    }, err))
 }
 
 fn csum(mut sum: u32, b: &[u8]) -> u32 {
